@@ -1,3 +1,225 @@
 import Driver.Common
-/-! stub: replaced by the owner of this driver -/
-def main : IO Unit := Driver.run () (fun s _ => (s, "bad-op"))
+import ScionVerif.Model.HopPred
+import ScionVerif.Model.Acl
+import ScionVerif.Model.HopPattern
+/-!
+Line-protocol driver for the path-policy models (C16).  Strings travel as hex of their UTF-8 bytes.
+
+```
+ws                               -> code points < 0x3100 with isRustWhitespace, decimal, space separated
+pred <hex>                       -> ok <Debug of HopPredicate> | err
+show <pred>                      -> <hex of Display>                 pred = isd/asn|n/a|e<k>|b<k>,<m>
+pm <pred> <hop> ...              -> 0/1 per hop                      hop  = isd:asn:in:eg
+lex <hex>                        -> <kind>:<lo>:<hi> ...             kind = P<hex> ! & | ( ) ? + * $
+ptoks <kind> ...                 -> ok <Debug of HopPatternPolicy> | err <class> <token index|->
+parse <hex>                      -> same, on the lexed string
+pmatch <hex> <hops> ...          -> 0/1 per hop sequence | err       hops = hop,hop,... | -
+acl <hex>                        -> ok <Debug of AclPolicy> | err <class>
+aclmatch <hex> <hops> ...        -> 0/1 per hop sequence | err
+aclm <+|-> <entries|_> <hops>... -> 0/1 per hop sequence             entries = +pred;-pred;...
+hops <nometa|noifs|-|iface,...>  -> ok <hops> | err <class>          iface = isd:asn:id
+```
+-/
+open ScionVerif.Policy Driver
+
+def hexToChars (h : String) : Option (List Char) :=
+  match parseHex h with
+  | none => none
+  | some bs => (String.fromUTF8? (ByteArray.mk bs.toArray)).map (·.toList)
+
+def charsToHex (cs : List Char) : String := toHex (String.ofList cs).toUTF8.toList
+
+def str (cs : List Char) : String := String.ofList cs
+
+/-! Rust `{:?}` renderings -/
+def dbgIfs : Ifs → String
+  | .any => "Any"
+  | .either a => s!"Either(InterfacePredicate({a}))"
+  | .both a b => "Both { ingress: InterfacePredicate(" ++ toString a ++ "), egress: InterfacePredicate(" ++ toString b ++ ") }"
+
+def dbgPred (p : Pred) : String :=
+  "HopPredicate { isd: " ++ toString p.isd ++ ", asn: " ++
+    (match p.asn with | some a => "Some(" ++ str (showAsn a) ++ ")" | none => "None") ++
+    ", interfaces: " ++ dbgIfs p.ifs ++ " }"
+
+def dbgExpr : Expr → String
+  | .pred p => "HopPredicate(" ++ dbgPred p ++ ")"
+  | .or a b => "Or(" ++ dbgExpr a ++ ", " ++ dbgExpr b ++ ")"
+  | .optional a => "Optional(" ++ dbgExpr a ++ ")"
+  | .oneOrMore a => "OneOrMore(" ++ dbgExpr a ++ ")"
+  | .zeroOrMore a => "ZeroOrMore(" ++ dbgExpr a ++ ")"
+
+def dbgPolicy (es : List Expr) : String :=
+  "HopPatternPolicy([" ++ ", ".intercalate (es.map dbgExpr) ++ "])"
+
+def dbgOp : Op → String
+  | .allow => "Allow"
+  | .deny => "Deny"
+
+def dbgAcl (a : Acl) : String :=
+  "AclPolicy { entries: [" ++
+    ", ".intercalate (a.entries.map fun e =>
+      "AclEntry { operator: " ++ dbgOp e.op ++ ", hop_predicate: " ++ dbgPred e.pred ++ " }") ++
+    "], default: " ++ dbgOp a.default ++ " }"
+
+def perrStr (total : Nat) : PErr → String
+  | .invalidPred r => s!"err invalid_pred {total - r}"
+  | .bangUnsupported r => s!"err bang {total - r}"
+  | .expectedRParen r => s!"err expected_rparen {total - r}"
+  | .unclosedParen r => s!"err unclosed_paren {total - r}"
+  | .unexpectedToken r => s!"err unexpected_token {total - r}"
+  | .unexpectedEnd => "err unexpected_end -"
+  | .andUnsupported r => s!"err and {total - r}"
+  | .trailingTokens r => s!"err trailing {total - r}"
+  | .fuel => "err FUEL -"
+
+def aclErrStr : AclErr → String
+  | .invalidOperator => "err invalid_operator"
+  | .invalidPredicate => "err invalid_predicate"
+  | .wildcardNotLast => "err wildcard_not_last"
+  | .missingDefault => "err missing_default"
+
+/-! request decoding -/
+def natOf (s : String) : Option Nat := s.toNat?
+
+def splitStr (s : String) (sep : Char) : List String := s.splitOn (String.singleton sep)
+
+def parseHopStr (s : String) : Option Hop :=
+  match (splitStr s ':').map natOf with
+  | [some a, some b, some c, some d] => some ⟨a, b, c, d⟩
+  | _ => none
+
+def allSome {α : Type} : List (Option α) → Option (List α)
+  | [] => some []
+  | none :: _ => none
+  | some x :: xs => (allSome xs).map (x :: ·)
+
+def parseHopsStr (s : String) : Option (List Hop) :=
+  if s == "-" then some [] else allSome ((splitStr s ',').map parseHopStr)
+
+def parseIfsStr (s : String) : Option Ifs :=
+  if s == "a" then some .any
+  else match s.toList with
+    | 'e' :: r => (natOf (String.ofList r)).map .either
+    | 'b' :: r =>
+      match (splitStr (String.ofList r) ',').map natOf with
+      | [some x, some y] => some (.both x y)
+      | _ => none
+    | _ => none
+
+def parsePredStr (s : String) : Option Pred :=
+  match splitStr s '/' with
+  | [i, a, f] =>
+    match natOf i, (if a == "n" then some none else (natOf a).map some), parseIfsStr f with
+    | some isd, some asn, some ifs => some ⟨isd, asn, ifs⟩
+    | _, _, _ => none
+  | _ => none
+
+def parseEntryStr (s : String) : Option Entry :=
+  match s.toList with
+  | '+' :: r => (parsePredStr (String.ofList r)).map (⟨.allow, ·⟩)
+  | '-' :: r => (parsePredStr (String.ofList r)).map (⟨.deny, ·⟩)
+  | _ => none
+
+def parseEntriesStr (s : String) : Option (List Entry) :=
+  if s == "_" then some [] else allSome ((splitStr s ';').map parseEntryStr)
+
+def parseTokStr (s : String) : Option Tok :=
+  match s.toList with
+  | ['!'] => some .bang | ['&'] => some .and | ['|'] => some .or | ['('] => some .lparen
+  | [')'] => some .rparen | ['?'] => some .qmark | ['+'] => some .plus | ['*'] => some .star
+  | ['$'] => some .eoi
+  | 'P' :: r => (hexToChars (String.ofList r)).map .pred
+  | _ => none
+
+def tokStr : Tok → String
+  | .pred s => "P" ++ charsToHex s
+  | .bang => "!" | .and => "&" | .or => "|" | .lparen => "(" | .rparen => ")"
+  | .qmark => "?" | .plus => "+" | .star => "*" | .eoi => "$"
+
+def parseIfaceStr (s : String) : Option Iface :=
+  match (splitStr s ':').map natOf with
+  | [some a, some b, some c] => some ⟨a, b, c⟩
+  | _ => none
+
+def bits (bs : List Bool) : String := String.ofList (bs.map fun b => if b then '1' else '0')
+
+def hopStr (h : Hop) : String := s!"{h.isd}:{h.asn}:{h.ingress}:{h.egress}"
+
+def parseResult (toks : List Tok) : String :=
+  match parseTokens toks with
+  | .ok es => "ok " ++ dbgPolicy es
+  | .error e => perrStr toks.length e
+
+def step (st : Unit) : List String → Unit × String
+  | ["ws"] =>
+    (st, " ".intercalate (((List.range 0x3100).filter fun n => isRustWhitespace (Char.ofNat n)).map toString))
+  | ["pred", hx] =>
+    match hexToChars hx with
+    | none => (st, "bad-op")
+    | some s => match parsePred s with
+      | some p => (st, "ok " ++ dbgPred p)
+      | none => (st, "err")
+  | ["show", p] =>
+    match parsePredStr p with
+    | some p => (st, charsToHex (showPred p))
+    | none => (st, "bad-op")
+  | "pm" :: p :: hops =>
+    match parsePredStr p, allSome (hops.map parseHopStr) with
+    | some p, some hs => (st, bits (hs.map p.matches))
+    | _, _ => (st, "bad-op")
+  | ["lex", hx] =>
+    match hexToChars hx with
+    | none => (st, "bad-op")
+    | some s => (st, " ".intercalate ((lex s).map fun t => s!"{tokStr t.kind}:{t.lo}:{t.hi}"))
+  | "ptoks" :: toks =>
+    match allSome (toks.map parseTokStr) with
+    | some ts => (st, parseResult ts)
+    | none => (st, "bad-op")
+  | ["parse", hx] =>
+    match hexToChars hx with
+    | none => (st, "bad-op")
+    | some s => (st, parseResult (lexKinds s))
+  | "pmatch" :: hx :: hops =>
+    match hexToChars hx, allSome (hops.map parseHopsStr) with
+    | some s, some hss =>
+      match parsePolicy s with
+      | .ok es => (st, bits (hss.map (matchPolicy es)))
+      | .error _ => (st, "err")
+    | _, _ => (st, "bad-op")
+  | ["acl", hx] =>
+    match hexToChars hx with
+    | none => (st, "bad-op")
+    | some s => match parseAcl s with
+      | .ok a => (st, "ok " ++ dbgAcl a)
+      | .error e => (st, aclErrStr e)
+  | "aclmatch" :: hx :: hops =>
+    match hexToChars hx, allSome (hops.map parseHopsStr) with
+    | some s, some hss =>
+      match parseAcl s with
+      | .ok a => (st, bits (hss.map a.matches))
+      | .error _ => (st, "err")
+    | _, _ => (st, "bad-op")
+  | "aclm" :: d :: es :: hops =>
+    match (if d == "+" then some Op.allow else if d == "-" then some Op.deny else none),
+          parseEntriesStr es, allSome (hops.map parseHopsStr) with
+    | some d, some es, some hss => (st, bits (hss.map (Acl.matches ⟨es, d⟩)))
+    | _, _, _ => (st, "bad-op")
+  | ["hops", x] =>
+    let arg : Option (Option (Option (List Iface))) :=
+      if x == "nometa" then some none
+      else if x == "noifs" then some (some none)
+      else if x == "-" then some (some (some []))
+      else (allSome ((splitStr x ',').map parseIfaceStr)).map (fun l => some (some l))
+    match arg with
+    | none => (st, "bad-op")
+    | some a =>
+      match hopsFromPath a with
+      | .ok hs => (st, "ok " ++ ",".intercalate (hs.map hopStr))
+      | .error .noMetadata => (st, "err no_metadata")
+      | .error .noInterfaces => (st, "err no_interfaces")
+      | .error .oddInterfaces => (st, "err odd_interfaces")
+      | .error .differentIsdAsn => (st, "err different_isd_asn")
+  | _ => (st, "bad-op")
+
+def main : IO Unit := Driver.run () step
